@@ -24,7 +24,7 @@ from . import c18  # noqa: E402
 B = fakeusb.BACKEND
 
 
-def drive(script, timeout_s, default_s, inject=None, short=False, seed=0, conn_s='same'):
+def drive(script, timeout_s, default_s, inject=None, short=False, seed=0, conn_s='same', select=None, system=None):
     conn_s = timeout_s if conn_s == 'same' else conn_s       # the timeout given to connect() (it is not the default of later calls)
     from adb_shell.transport.usb_transport import UsbTransport
     from adb_shell import exceptions as ex
@@ -35,7 +35,22 @@ def drive(script, timeout_s, default_s, inject=None, short=False, seed=0, conn_s
     if short:
         B.short_read = lambda n, avail: rng.randint(1, min(n, avail))
         B.short_write = lambda n: rng.randint(1, n)
-    t = UsbTransport.find_adb(default_transport_timeout_s=default_s)
+    # how the device is chosen: the first ADB interface, by serial number, by port path given as a list / as a sysfs string
+    sel = {None: {}, 'serial': dict(serial='FAKESERIAL'), 'port_list': dict(port_path=[1, 2, 3]), 'port_str': dict(port_path='1-2.3')}[select]
+    import adb_shell.transport.usb_transport as ut
+    real_platform = ut.platform
+    if system:
+        import types as _types
+        ut.platform = _types.SimpleNamespace(system=lambda: system)       # the operating system the library believes it runs on
+    try:
+        return _drive(script, timeout_s, default_s, conn_s, rng, sel)
+    finally:
+        ut.platform = real_platform
+
+
+def _drive(script, timeout_s, default_s, conn_s, rng, sel):
+    from adb_shell.transport.usb_transport import UsbTransport
+    t = UsbTransport.find_adb(default_transport_timeout_s=default_s, **sel)
     tr = []
     written = delivered = 0
     exp_ms = int((timeout_s if timeout_s is not None else (default_s if default_s is not None else 10)) * 1000)
@@ -72,6 +87,7 @@ def drive(script, timeout_s, default_s, inject=None, short=False, seed=0, conn_s
                 written += a['m']
                 tr.append(dict(op='pw', m=a['m']))
             elif op in ('read', 'timeout'):
+                nf0 = len(B.fired)
                 try:
                     got = t.bulk_read(a['n'], timeout_s)
                     flush_log(n=a['n'])
@@ -80,9 +96,11 @@ def drive(script, timeout_s, default_s, inject=None, short=False, seed=0, conn_s
                     delivered += len(got)
                 except Exception as x:  # noqa
                     flush_log(n=a['n'])
-                    tr.append(dict(op='raised', call='bulk_read', cls=type(x).__name__, expected='UsbReadFailedError', closed=closed))
+                    tr.append(dict(op='raised', call='bulk_read', cls=type(x).__name__, expected='UsbReadFailedError', closed=closed,
+                                   legit=bool(closed or len(B.fired) > nf0 or written == delivered or B.gone)))
             elif op in ('write', 'hw'):
                 data = bytes(rng.randrange(256) for _ in range(a['m'] if op == 'write' else a['n']))
+                nf0 = len(B.fired)
                 try:
                     k = t.bulk_write(data, timeout_s)
                     acc = len(B.out)
@@ -90,7 +108,7 @@ def drive(script, timeout_s, default_s, inject=None, short=False, seed=0, conn_s
                     tr.append(dict(op='wrote', k=k if isinstance(k, int) else -1, accepted=len(B.out) - a.get('before', 0) if False else (k if isinstance(k, int) else -1)))
                 except Exception as x:  # noqa
                     flush_log(data=data)
-                    tr.append(dict(op='raised', call='bulk_write', cls=type(x).__name__, expected='UsbWriteFailedError', closed=closed))
+                    tr.append(dict(op='raised', call='bulk_write', cls=type(x).__name__, expected='UsbWriteFailedError', closed=closed, legit=bool(closed or len(B.fired) > nf0 or B.gone)))
         except Exception as x:  # noqa
             tr.append(dict(op='error', clause={'connect': 'Reconnectable', 'close': 'CloseIdempotent'}.get(op, 'Raises'), what='%s raised %r' % (op, x)))
             break
@@ -99,6 +117,47 @@ def drive(script, timeout_s, default_s, inject=None, short=False, seed=0, conn_s
     except Exception:  # noqa
         pass
     return tr
+
+
+def two_devices():
+    """Two ADB devices on the bus that report the same serial number (cheap devices often do), one transport each, used in turn:
+    connect(A), connect(B), use A, use B, close B, use A.  One trace per transport."""
+    from adb_shell.transport.usb_transport import UsbTransport
+    B.reset()
+    B.ndevices = 2
+    ts = {'A': UsbTransport.find_adb(port_path=[1, 2, 3], default_transport_timeout_s=1.0), 'B': UsbTransport.find_adb(port_path=[1, 2, 4], default_transport_timeout_s=1.0)}
+    trs = {'A': [], 'B': []}
+    closed = {'A': True, 'B': True}
+
+    def do(who, what):
+        t, tr = ts[who], trs[who]
+        del B.log[:]
+        nf0 = len(B.fired)
+        try:
+            if what == 'connect':
+                t.connect(1.0)
+                closed[who] = False
+                tr.append(dict(op='connect', ok=True))
+                for c in B.log:
+                    if c['name'] == 'claimInterface':
+                        tr.append(dict(op='claim', iface=c['iface'], expected=fakeusb.IFACE))
+                tr.append(dict(op='connected'))
+            elif what == 'close':
+                t.close()
+                closed[who] = True
+                tr.append(dict(op='close', ok=True))
+            else:
+                k = t.bulk_write(b'hello', 1.0)
+                tr.append(dict(op='wrote', k=k if isinstance(k, int) else -1, accepted=5))
+        except Exception as x:  # noqa
+            if what == 'write':
+                tr.append(dict(op='raised', call='bulk_write', cls=type(x).__name__, expected='UsbWriteFailedError', closed=closed[who], legit=bool(closed[who] or len(B.fired) > nf0)))
+            else:
+                tr.append(dict(op='error', clause={'connect': 'Reconnectable', 'close': 'CloseIdempotent'}[what], what='%s(%s) raised %r' % (what, who, x)))
+    for who, what in (('A', 'connect'), ('B', 'connect'), ('A', 'write'), ('B', 'write'), ('B', 'close'), ('A', 'write'), ('B', 'connect'), ('A', 'write'), ('A', 'close'), ('B', 'write'), ('B', 'close')):
+        do(who, what)
+    B.ndevices = 1
+    return [trs['A'], trs['B']]
 
 
 def usb_session(seed):
@@ -170,10 +229,20 @@ def body(ctx):
     # backend errors at every call index of a fixed script
     base = [dict(op='connect'), dict(op='write', m=24), dict(op='pw', m=3), dict(op='read', n=2), dict(op='write', m=100), dict(op='read', n=4), dict(op='pw', m=2),
             dict(op='read', n=9), dict(op='close'), dict(op='read', n=1), dict(op='write', m=5), dict(op='connect'), dict(op='pw', m=1), dict(op='read', n=1)]
+    selects = [None, 'serial', 'port_list', 'port_str']
+    systems = [None, 'Windows', 'Darwin', 'Linux']
     for k in range(0, 16):
-        for kind in ('timeout', 'io', 'nodevice', 'pipe'):
-            traces.append(drive(base, 0.5, None, inject={k: kind}, seed=k))
-            meta.append(dict(kind='backend error', at=k, error=kind, script=base))
+        for ki, kind in enumerate(('timeout', 'io', 'nodevice', 'pipe')):
+            sel_, sys_ = selects[(k + ki) % 4], systems[(k // 4 + ki) % 4]
+            traces.append(drive(base, 0.5, None, inject={k: kind}, seed=k, select=sel_, system=sys_))
+            meta.append(dict(kind='backend error', at=k, error=kind, script=base, device_selected_by=sel_, platform=sys_))
+    for sel_ in selects:
+        for sys_ in systems:
+            traces.append(drive(base, 1.5, None, seed=3, select=sel_, system=sys_))
+            meta.append(dict(kind='selection / platform', script=base, device_selected_by=sel_, platform=sys_))
+    for tr_ in two_devices():
+        traces.append(tr_)
+        meta.append(dict(kind='two devices with the same serial number, one transport each'))
     ver, r = tlc.validate_traces('TraceUsb', traces)
     ctx.add_tlc(r, 'TraceUsb over %d scripts on the fake libusb backend' % len(traces))
     okn = 0
